@@ -13,5 +13,5 @@ RULE = ("family `srv` (malformed + well-formed modes): grammar-aware mutations o
         "memory-table and per-ring messages carrying adversarial 64-bit values (top-of-address-space ranges, indexes beyond the ring "
         "count, raw u64 payloads); a request thread that panics (overflow checks on) or stops answering is a violation (`no-answer`).")
 ASSUMPTIONS = ["memory safety of the unsafe casts is trusted to rustc given the proved length guards", "allocation failure not modelled"]
-FAMILIES = [SrvFamily(modes=("malformed", "wf"), quick=(600, 0, 4000), thorough=(5000, 0, 150000)),
+FAMILIES = [SrvFamily(modes=("queued", "malformed", "wf"), quick=(600, 0, 4000), thorough=(5000, 0, 150000)),
             MemFamily(), VqFamily()]
